@@ -37,7 +37,7 @@ UNITS = [
     ("m**2/cm", "length"), ("s*km/hr", "length"), ("km/m", "none"), ("g*cm**2/s**2/erg", "none"), ("Np", "log"),
     # compound spellings of one dimension whose symbols do not cancel pairwise (erg / (N*m) is dimensionless
     # with scale 1e-7: its own branch of __array_ufunc__)
-    ("N*m", "energy"), ("dyn*cm", "energy"), ("kg*m**2/s**2", "energy"), ("g*cm/s**2", "force"), ("N", "force"),
+    ("percent", "none"), ("N*m", "energy"), ("dyn*cm", "energy"), ("kg*m**2/s**2", "energy"), ("g*cm/s**2", "force"), ("N", "force"),
 ]
 GUARDED = ["degC", "degF", "dB", "Np", "delta_degC", "delta_degF"]
 BY_DIM = {}
@@ -239,6 +239,11 @@ def build_templates():
         TT["iop_" + name] = T((lambda f: lambda A, p: f(A["x"], A["y"]))(fi), ("x", "y"), "x", "op_" + name, "iop")
         TT["ops_" + name] = T((lambda f: lambda A, p: f(A["x"], p["c"]))(f), ("x",), cat="op", params=("c",))
         TT["iops_" + name] = T((lambda f: lambda A, p: f(A["x"], p["c"]))(fi), ("x",), "x", "ops_" + name, "iop", ("c",))
+        # the same with a plain ndarray (one that owns its memory) as the right operand
+        TT["op_" + name + "_ndroot"] = T((lambda f: lambda A, p: f(A["x"], A["y_root"]))(f), ("x", "y"), cat="op")
+        TT["rop_" + name + "_ndroot"] = T((lambda f: lambda A, p: f(A["y_root"], A["x"]))(f), ("x", "y"), cat="op")
+    for name, f in [("maximum", np.maximum), ("less", np.less), ("equal", np.equal), ("hypot", np.hypot)]:
+        TT["uf_" + name + "_ndroot"] = T((lambda f: lambda A, p: f(A["x"], A["y_root"]))(f), ("x", "y"), cat="ufunc")
     TT["op_pow"] = T(lambda A, p: A["x"] ** p["e"], ("x",), cat="op", params=("e",))
     TT["iop_pow"] = T(lambda A, p: operator.ipow(A["x"], p["e"]), ("x",), "x", "op_pow", "iop", ("e",))
     TT["op_pow_q"] = T(lambda A, p: A["x"] ** A["y"], ("x", "y"), cat="op")
@@ -663,6 +668,8 @@ class Gen18:
         if t.cat in ("equiv", "iequiv"):
             eq = r.choice(EQUIV)
             xunit, to_unit, p["equiv"], p["kw"] = eq[0], eq[1], eq[2], dict(eq[3])
+        if name.endswith("_ndroot") and r.random() < 0.6:
+            xunit = r.choice(["percent", "km/m", "dimensionless", "g*cm**2/s**2/erg"])
         positive = name.split(":")[-1] in ("sqrt", "log", "log2", "log10", "log1p", "arccosh", "power", "reciprocal") or "pow" in name \
             or t.cat in ("equiv", "iequiv")
         # parameters
@@ -961,6 +968,9 @@ class Sim18:
         t = templates()[op["t"]]
         ents = {r: w.ent(i) for r, i in op["a"].items()}
         A = {r: e.obj for r, e in ents.items()}
+        if op["t"].endswith("_ndroot"):
+            # the plain ndarray that OWNS the memory role y views: an operand without units
+            A["y_root"] = w.roots[ents["y"].root]
         p = op.get("p", {})
         fault = op.get("fault", "none")
         self.stats["faults"][fault.split("@")[0]] = self.stats["faults"].get(fault.split("@")[0], 0) + 1
